@@ -107,3 +107,27 @@ def units(rng, big=False):
     res.append(dict(unit='PgSslRequest', cls=P.SslRequest, frames=[bytes(P.SslRequest().compose())], c04=True))
     res.append(dict(unit='PgSync', cls=P.Sync, frames=[bytes(P.Sync().compose())], c04=True))
     return [u for u in res if u['frames']]
+
+
+def sender_probes():
+    """(unit, class name, payload size, thunk): records whose payload is just below / at / above what the length field
+    of the layer can express"""
+    from cryptoparser.tls import record as R, subprotocol as S, mysql as M, rdp as D, openvpn as O
+    from cryptoparser.tls.ciphersuite import SslCipherKind
+    out = []
+    for n in (2 ** 24 - 1, 2 ** 24, 2 ** 24 + 1, 2 ** 24 + 256):
+        out.append(('MySQLRecord', 'MySQLRecord', n, lambda n=n: M.MySQLRecord(packet_number=1, packet_bytes=bytes(n)).compose()))
+    for n in (65535 - 4, 65536 - 4, 65537 - 4, 65536 + 252):
+        out.append(('TPKT', 'TPKT', n, lambda n=n: D.TPKT(version=3, message=bytes(n)).compose()))
+    for n in (65535, 65536, 65537, 65536 + 256):
+        out.append(('OpenVpnTcp', 'OpenVpnPacketWrapperTcp', n, lambda n=n: O.OpenVpnPacketWrapperTcp(bytes(n)).compose()))
+        out.append(('TlsRecord', 'TlsRecord', n, lambda n=n: R.TlsRecord(fragment=bytes(n), content_type=S.TlsContentType.APPLICATION_DATA).compose()))
+    for n in (32767 - 12, 32768 - 12, 32769 - 12, 32768 + 256):
+        out.append(('SslRecord', 'SslRecord', n, lambda n=n: R.SslRecord(message=S.SslHandshakeServerHello(
+            certificate=bytes(n), cipher_kinds=list(SslCipherKind)[:1], connection_id=b'')).compose()))
+    for n in (2 ** 24 - 7, 2 ** 24 - 6, 2 ** 24 + 1):
+        def hs(n=n):
+            from cryptoparser.tls.subprotocol import TlsHandshakeCertificate, TlsCertificate, TlsCertificates
+            return TlsHandshakeCertificate(TlsCertificates([TlsCertificate(bytes(n))])).compose()
+        out.append(('TlsHandshake', 'TlsHandshakeCertificate', n, hs))
+    return out
